@@ -189,6 +189,40 @@ class Bench:
                 c.force_disconnect()
         elif kind == "fatal":
             c.report_fatal_error(core.PingFailedAPIError("x"))
+        elif kind == "writefail":
+            # the transport refuses the next write (asyncio: the OSError family; uvloop / a transport already closing:
+            # RuntimeError): the command that meets it ends with a library error and the connection is closed - whatever the
+            # class, the client is free again afterwards
+            _wf[0] += 1
+            exc = [OSError("boom"), RuntimeError("the transport is closed"), ConnectionResetError(104, "reset"), BrokenPipeError(32, "pipe")][_wf[0] % 4]
+            net.fail_writes = exc
+            for t in getattr(net, "all_transports", []):
+                t.fail_writes = exc
+            for what, call in (("switch_command()", lambda: self.client.switch_command(1, True)), ("disconnect(force=True)", None)):
+                if c.connection_state is ac.CONNECTION_STATE_CLOSED:
+                    break
+                if call is None:
+                    t_ = tasks._PyTask(self.client.disconnect(force=True), loop=self.loop, name="cdisc", eager_start=True)
+                    call = lambda t_=t_: t_.result() if t_.done() else None
+                elif not c.is_connected:
+                    continue
+                try:
+                    call()
+                except core.APIConnectionError:
+                    pass
+                except Exception as e:  # noqa: BLE001
+                    self.bad.append(("write-failure-raw", f"{what} on a transport whose write raises {type(exc).__name__} let a raw "
+                                                          f"{type(e).__name__} escape in phase {self.phase()}"))
+            net.fail_writes = None
+            for t in getattr(net, "all_transports", []):
+                t.fail_writes = None
+            if c.connection_state is not ac.CONNECTION_STATE_CLOSED:
+                self.bad.append(("write-failure-left-open", f"a failing write ({type(exc).__name__}) followed by disconnect(force=True) "
+                                                            f"left the connection in state {STATE[c.connection_state]}"))
+                c._cleanup()   # (let the scenario go on from a defined state)
+            if self.client._connection is c:
+                self.emit("disconnect", self.last, 0)
+                return
         if c.connection_state is ac.CONNECTION_STATE_CLOSED:
             self.emit("close", self.last, 0)
         else:
@@ -342,7 +376,8 @@ def run_scenario(ops, entry_points, hook_reconnect=False):
     return res
 
 
-CLOSES = ["force", "disconnect", "eof", "garbage", "peer", "fatal"]
+CLOSES = ["force", "disconnect", "eof", "garbage", "peer", "fatal", "writefail"]
+_wf = [0]
 I = ("idle",)
 
 
